@@ -215,11 +215,13 @@ Section Impl.
     let st := st <| latest_block_header := mkHeader 0 0 zero32 zero32 (genesis_body_root E) |> in
     seed_randao st eth1_block_hash.
 
-  Definition genesis_from_eth1 (eth1_block_hash : bytes) (time : N) (deps : list value) (ignore : bool)
-    : outcome BeaconState :=
+  (* returns the state and the epochs context; of the context the model keeps the pubkey cache (the rest is recomputed by
+     LoadShuffling / LoadProposers from the state: C07 / C08) *)
+  Definition genesis_from_eth1_ctx (eth1_block_hash : bytes) (time : N) (deps : list value) (ignore : bool)
+    : outcome (BeaconState * pubkey_cache) :=
     let st := genesis_pre_state eth1_block_hash time (length deps) in
     acc <~ deposit_loop ignore deps (st, [], pc_empty) ;;
-    let '(st, roots, _) := acc in
+    let '(st, roots, pc) := acc in
     let st := update_dep_tree_root st roots in
     (* if common.Slot(valCount) < spec.SLOTS_PER_EPOCH: "not enough validators to init full featured BeaconState" *)
     _ <~ check (negb (N.of_nat (length (validators st)) <? SLOTS_PER_EPOCH c)) ;;
@@ -228,7 +230,11 @@ Section Impl.
     let st := st <| genesis_validators_root :=
                       htr (TList ValidatorT (VALIDATOR_REGISTRY_LIMIT c)) (VSeq (map validator_to_value vals)) |> in
     _ <~ load_epc st ;;
-    Ok st.
+    Ok (st, pc).
+  (* the state alone *)
+  Definition genesis_from_eth1 (eth1_block_hash : bytes) (time : N) (deps : list value) (ignore : bool)
+    : outcome BeaconState :=
+    x <~ genesis_from_eth1_ctx eth1_block_hash time deps ignore ;; Ok (fst x).
 
   (* ---------- IsValidGenesisState ---------- *)
   (* the iteration over the registry counting IsActive(val, GENESIS_EPOCH): activationEpoch > epoch -> no; epoch >= exitEpoch -> no *)
@@ -253,3 +259,40 @@ Section Impl.
     st <~ genesis_from_eth1 eth1_block_hash 0 (map (kick_deposit placeholder_sig zero_proof) vs) true ;;
     Ok (st <| genesis_time := time |>).
 End Impl.
+
+(* ---------- entry point for the extracted driver (ocaml/modelrun.ml): bytes in, bytes out ----------
+   Same interface as Beacon/Run.run_genesis (SSZ List[Deposit, 2^32] in, SSZ phase0 state out), so that the Impl model can
+   be run on every recorded `genesis` case next to the Spec.  With the driver's table oracle (a signature absent from the
+   table is invalid, an undecodable key has no table entry) pass `pk_ok = sig_ok = fun _ => true`: the three skips of
+   ProcessDeposit collapse into the table lookup. *)
+Inductive genesis_run := GenBadInput | GenErr | GenPanic | GenOk (post : bytes).
+Definition run_genesis_impl (E : Env) (pk_ok sig_ok : bytes -> bool) (eth1_block_hash : bytes) (time : N)
+                            (deposits : bytes) (ignore : bool) : genesis_run :=
+  match deserialize (TList DepositT (2 ^ 32)) deposits with
+  | None => GenBadInput
+  | Some v =>
+      match genesis_from_eth1 E pk_ok sig_ok eth1_block_hash time (vseq v) ignore with
+      | Ok st => GenOk (serialize (BeaconStateT (cfg E) Phase0) (state_to_value (cfg E) Phase0 st))
+      | Err => GenErr
+      | _ => GenPanic
+      end
+  end.
+
+(* KickStartState on a `kickstart` record: validators = concatenation of 88-byte entries pubkey48 ‖ credentials32 ‖ balance_u64_le *)
+Fixpoint parse_kick_data (fuel : nat) (bs : bytes) : list kick_data :=
+  match fuel with
+  | O => []
+  | S k =>
+      match bs with
+      | [] => []
+      | _ => (firstn 48 bs, firstn 32 (skipn 48 bs), le_value (firstn 8 (skipn 80 bs))) :: parse_kick_data k (skipn 88 bs)
+      end
+  end.
+Definition run_kickstart_impl (E : Env) (pk_ok sig_ok : bytes -> bool) (placeholder_sig eth1_block_hash : bytes) (time : N)
+                              (validators_blob : bytes) : genesis_run :=
+  match kickstart_state E pk_ok sig_ok placeholder_sig eth1_block_hash time
+          (parse_kick_data (length validators_blob) validators_blob) with
+  | Ok st => GenOk (serialize (BeaconStateT (cfg E) Phase0) (state_to_value (cfg E) Phase0 st))
+  | Err => GenErr
+  | _ => GenPanic
+  end.
